@@ -339,7 +339,8 @@ def part_bitfields(chk, c2m, model, d, quick):
     rng = chk.rng('bitfields')
     ncase = 60 if quick else 600
     cases = [F.gen_case(rng) for _ in range(ncase)]
-    findings, tie = [], []
+    findings, tie, ifindings = [], [], []
+    avoid_mixed = any(k == KNOWN_SHAPES['mixed-unit-bitfields'] for k, _ in chk.known)
     nst = 0
     B = 60
     for off in range(0, len(cases), B):
@@ -413,6 +414,32 @@ def part_bitfields(chk, c2m, model, d, quick):
                             else 'value of the assignment expression' if got[0] != want[0]
                             else 'value read back' if got[1] != want[1] else 'bytes of the object (bits of named members)')
                     findings.append((c, k, j, en, what, got, want))
+        # initialisers of the same structs: static data (add_bit_field + the data loop of gen_initializer) and
+        # automatic objects (its store loop), positional prefix and shuffled designated subset
+        for k, c in enumerate(cs):
+            ext = F.member_extents(c, k, N)
+            if ext is None:
+                continue
+            mask = 0
+            for A, w in ext:
+                mask |= ((1 << w) - 1) << A
+            for form in range(4):
+                if form < 2 and avoid_mixed and F.mixed_units(c, ext):
+                    chk.dist('F_init', 'static form skipped: shape of the known finding mixed_bitfield_init')
+                    continue
+                want = F.init_expect(c, ext, form)
+                chk.count('Finit:%r' % ((c['members'], c['ivals'], c['npos'], c['des'], form),), nontrivial=True, n=len(ENGINES) + 1)
+                chk.dist('F_init', F.INIT_FORMS[form])
+                for en, (Nn, Vv) in runs.items():
+                    b = Vv.get((k, 'I', form))
+                    got = None if b is None else int.from_bytes(b, 'little') & mask
+                    if got == want:
+                        continue
+                    if en == 'gcc':
+                        raise vlib.BuildError('initialiser expectation disagrees with gcc on %s form %d: gcc %s, expected %s'
+                                              % (F.struct_text(k, c), form, got, hex(want)))
+                    if all(Nn.get(key) == N.get(key) for key in N if key[0] == k):    # layout differences are reported above
+                        ifindings.append((c, k, form, en, got, want))
         # the emitted code
         csrc = os.path.join(d, 'bfcode%d.c' % off)
         open(csrc, 'w').write(F.code_unit(cs))
@@ -460,7 +487,20 @@ def part_bitfields(chk, c2m, model, d, quick):
                     'bit-field `%s f:%d` (%s = %d, object filled with %s): %s under c2m %s: got %s, gcc/model %s'
                     % (F.TYPES[c['type']][0], c['width'], c['forms'][j], c['vals'][j], c['fills'][j], what, ','.join(engines),
                        [hex(x) for x in got] if got else None, [hex(x) for x in want]))
-    return nst, findings, tie
+    seen = set()
+    for c, k, form, en, got, want in ifindings:
+        sig = 'bfinit:%s:%d:%s' % (c['type'], c['width'], F.INIT_FORMS[form].split(',')[0])
+        if sig in seen or len(seen) >= 4:
+            continue
+        seen.add(sig)
+        engines = sorted(set(f[3] for f in ifindings if f[0] is c and f[2] == form))
+        one = dict(c, vals=[], fills=[], seeds=[], forms=[])
+        chk.finding(sig, dict(kind='bf', case=one, program=F.probe_unit([one]), engines=engines, what=F.INIT_FORMS[form],
+                              got=hex(got) if got is not None else None, want=hex(want)),
+                    '%s of `%s` (I line %d): named bits of the object under c2m %s: %s, gcc/C11 %s'
+                    % (F.INIT_FORMS[form], ' '.join(F.struct_text(0, one)[:-1]), form, ','.join(engines),
+                       hex(got) if got is not None else None, hex(want)))
+    return nst, findings + ifindings, tie
 
 
 # ------------------------------------------------------------------ B: generated programs
@@ -670,7 +710,10 @@ def run(chk):
                                 'ocaml/driver_c07.ml (parse + print only), tools/gen_c07_*.py (program generators)',
                                 'gcc 12 -O1 as the reference compiler (cross-checked against the Coq C11Conv/C11Fold specifications)',
                                 'tools/tr_c07_limits.py: coq/C07/Limits.v re-checked against c2mir/x86_64/cx86_64.h',
-                                'NOT proved (differential testing only): parser, statements, gen(), bit-fields, initialisers, '
+                                'bit-fields: the theorems are about store_code/load_code of coq/C07/BitField.v interpreted with its own '
+                                'semantics of LSH/RSH/URSH/AND/OR and of typed unit loads/stores; tied to c2m by comparing `c2m -S` text '
+                                'with that code and by running the extracted model against every engine; layout (wf_bf) is assumed (C08)',
+                                'NOT proved (differential testing only): parser, statements, the rest of gen(), initialisers, '
                                 'struct copies, calls, the engines']
     with Scratch() as d:
         c2m, model = tools(d)
